@@ -44,35 +44,49 @@ Definition benign (e : event) : Prop :=
 Lemma benign_ok K e : benign e -> ev_ok K e.
 Proof. destruct e; cbn; tauto. Qed.
 
+(** A log predicate: closed under consing acceptable events, and every benign event is
+    acceptable.  Two instances: [flagsA K] (the flag discipline, [log_ok K]) and, in Flags3,
+    "the log only grows". *)
+Record lpred := LPred {
+  lp_ev : event -> Prop;
+  lp_log : list event -> Prop;
+  lp_cons : forall e l, lp_ev e -> lp_log l -> lp_log (e :: l);
+  lp_benign : forall e, benign e -> lp_ev e;
+}.
+
+Definition flagsA (K : conf) : lpred :=
+  LPred (ev_ok K) (log_ok K) (fun e l He Hl => Forall_cons _ e l He Hl) (benign_ok K).
+
 (** the invariant threaded through every definition: flags equal to [t], log fine *)
-Definition inv (K : conf) (t : bool * bool * bool * bool) (m : machine) : Prop :=
-  ctl m = t /\ log_ok K (log m).
+Definition inv (A : lpred) (t : bool * bool * bool * bool) (m : machine) : Prop :=
+  ctl m = t /\ lp_log A (log m).
 
 Definition cl (m : machine) := (ctl m, log m).
 
-Lemma inv_cl K t m m' : cl m' = cl m -> inv K t m -> inv K t m'.
+Lemma inv_cl A t m m' : cl m' = cl m -> inv A t m -> inv A t m'.
 Proof.
   intros E [H1 H2]. pose proof (f_equal fst E) as E1. pose proof (f_equal snd E) as E2.
   unfold cl in E1, E2. cbn [fst snd] in E1, E2. split; congruence.
 Qed.
 
-Lemma inv_ctl K t m : inv K t m -> ctl m = t.
+Lemma inv_ctl A t m : inv A t m -> ctl m = t.
 Proof. intros [H _]; exact H. Qed.
-Lemma inv_log K t m : inv K t m -> log_ok K (log m).
+Lemma inv_log A t m : inv A t m -> lp_log A (log m).
 Proof. intros [_ H]; exact H. Qed.
-Lemma inv_self K m : log_ok K (log m) -> inv K (ctl m) m.
+Lemma inv_self A m : lp_log A (log m) ->
+  inv A (st_collecting m, st_finalizing m, st_dropping m, panicking m) m.
 Proof. split; auto. Qed.
 
-Lemma inv_c K c f d p m : inv K (c, f, d, p) m -> st_collecting m = c.
+Lemma inv_c A c f d p m : inv A (c, f, d, p) m -> st_collecting m = c.
 Proof. intros [H _]. unfold ctl in H. congruence. Qed.
-Lemma inv_f K c f d p m : inv K (c, f, d, p) m -> st_finalizing m = f.
+Lemma inv_f A c f d p m : inv A (c, f, d, p) m -> st_finalizing m = f.
 Proof. intros [H _]. unfold ctl in H. congruence. Qed.
-Lemma inv_d K c f d p m : inv K (c, f, d, p) m -> st_dropping m = d.
+Lemma inv_d A c f d p m : inv A (c, f, d, p) m -> st_dropping m = d.
 Proof. intros [H _]. unfold ctl in H. congruence. Qed.
-Lemma inv_p K c f d p m : inv K (c, f, d, p) m -> panicking m = p.
+Lemma inv_p A c f d p m : inv A (c, f, d, p) m -> panicking m = p.
 Proof. intros [H _]. unfold ctl in H. congruence. Qed.
 
-Lemma inv_quiet K t m : inv K t m -> tq K t -> quiet K m.
+Lemma inv_quiet K A t m : inv A t m -> tq K t -> quiet K m.
 Proof. intros [H _] Hq. subst t. exact Hq. Qed.
 Lemma quiet_tq K m : quiet K m -> tq K (ctl m).
 Proof. auto. Qed.
@@ -87,26 +101,43 @@ Lemma tq_panicking K c f d p p' : tq K (c, f, d, p) -> tq K (c, f, d, p').
 Proof. auto. Qed.
 
 (** ** Setting the flags *)
-Lemma inv_set_c K c f d p b m :
-  inv K (c, f, d, p) m -> inv K (b, f, d, p) (m <| st_collecting := b |>).
+Lemma inv_set_c A c f d p b m :
+  inv A (c, f, d, p) m -> inv A (b, f, d, p) (m <| st_collecting := b |>).
 Proof. intros [H1 H2]. unfold ctl in H1. split; [unfold ctl; cbn; congruence | exact H2]. Qed.
-Lemma inv_set_f K c f d p b m :
-  inv K (c, f, d, p) m -> inv K (c, b, d, p) (m <| st_finalizing := b |>).
+Lemma inv_set_f A c f d p b m :
+  inv A (c, f, d, p) m -> inv A (c, b, d, p) (m <| st_finalizing := b |>).
 Proof. intros [H1 H2]. unfold ctl in H1. split; [unfold ctl; cbn; congruence | exact H2]. Qed.
-Lemma inv_set_d K c f d p b m :
-  inv K (c, f, d, p) m -> inv K (c, f, b, p) (m <| st_dropping := b |>).
+Lemma inv_set_d A c f d p b m :
+  inv A (c, f, d, p) m -> inv A (c, f, b, p) (m <| st_dropping := b |>).
 Proof. intros [H1 H2]. unfold ctl in H1. split; [unfold ctl; cbn; congruence | exact H2]. Qed.
-Lemma inv_set_p K c f d p b m :
-  inv K (c, f, d, p) m -> inv K (c, f, d, b) (m <| panicking := b |>).
+Lemma inv_set_p A c f d p b m :
+  inv A (c, f, d, p) m -> inv A (c, f, d, b) (m <| panicking := b |>).
 Proof. intros [H1 H2]. unfold ctl in H1. split; [unfold ctl; cbn; congruence | exact H2]. Qed.
 
 (** ** Emitting events *)
-Lemma inv_emit K t e m : ev_ok K e -> inv K t m -> inv K t (emit e m).
-Proof. intros He [H1 H2]. split; [exact H1 | constructor; assumption]. Qed.
-Lemma inv_emit_benign K t e m : benign e -> inv K t m -> inv K t (emit e m).
-Proof. intros He. apply inv_emit, benign_ok, He. Qed.
-Lemma inv_emit_bad K t b o m : inv K t m -> inv K t (emit_bad b o m).
+Lemma inv_emit A t e m : lp_ev A e -> inv A t m -> inv A t (emit e m).
+Proof. intros He [H1 H2]. split; [exact H1 | apply lp_cons; assumption]. Qed.
+Lemma inv_emit_benign A t e m : benign e -> inv A t m -> inv A t (emit e m).
+Proof. intros He. apply inv_emit, lp_benign, He. Qed.
+Lemma inv_emit_bad A t b o m : inv A t m -> inv A t (emit_bad b o m).
 Proof. apply inv_emit_benign. exact I. Qed.
+
+(** ** Results of activations: the flags are [t] unless the activation ran out of fuel (then
+    the model state is meaningless, only the log predicate is kept) *)
+Definition res (A : lpred) (t : bool * bool * bool * bool) (x : machine * outcome) : Prop :=
+  lp_log A (log x.1) /\ (x.2 = OFuel \/ ctl x.1 = t).
+
+Lemma res_intro A t m r : inv A t m -> res A t (m, r).
+Proof. intros [H1 H2]. split; [exact H2 | right; exact H1]. Qed.
+Lemma res_intro_fuel A t t' m : inv A t' m -> res A t (m, OFuel).
+Proof. intros [H1 H2]. split; [exact H2 | left; reflexivity]. Qed.
+Lemma res_elim A t m r : res A t (m, r) -> r <> OFuel -> inv A t m.
+Proof. intros [H1 [H2|H2]] Hr; [contradiction | split; assumption]. Qed.
+Lemma res_elim_fuel A t m r : res A t (m, r) ->
+  inv A (st_collecting m, st_finalizing m, st_dropping m, panicking m) m.
+Proof. intros [H1 _]. apply inv_self, H1. Qed.
+Lemma res_eta A t x : res A t (x.1, x.2) -> res A t x.
+Proof. destruct x; auto. Qed.
 
 Create HintDb fl discriminated.
 
@@ -129,160 +160,155 @@ Ltac brk :=
 Ltac fl := eauto 12 with fl.
 
 Section Helpers.
-  Context (K : conf) (P : prog).
+  Context (K : conf) (P : prog) (A : lpred).
   Implicit Types (m : machine) (t : bool * bool * bool * bool).
 
-  Lemma inv_upd t o f m : inv K t m -> inv K t (upd o f m).
+  Lemma inv_upd t o f m : inv A t m -> inv A t (upd o f m).
   Proof. unfold upd. fl. Qed.
   Hint Resolve inv_upd : fl.
-  Lemma inv_uhdr t o f m : inv K t m -> inv K t (uhdr o f m).
+  Lemma inv_uhdr t o f m : inv A t m -> inv A t (uhdr o f m).
   Proof. unfold uhdr. fl. Qed.
   Hint Resolve inv_uhdr : fl.
-  Lemma inv_dec_size t o m : inv K t m -> inv K t (dec_size o m).
+  Lemma inv_dec_size t o m : inv A t m -> inv A t (dec_size o m).
   Proof. unfold dec_size. intros; brk; fl. Qed.
   Hint Resolve inv_dec_size : fl.
-  Lemma inv_remove_from_list t o m : inv K t m -> inv K t (remove_from_list o m).
+  Lemma inv_remove_from_list t o m : inv A t m -> inv A t (remove_from_list o m).
   Proof. unfold remove_from_list. intros; brk; fl. Qed.
-  Lemma inv_add_to_list t o m : inv K t m -> inv K t (add_to_list o m).
+  Lemma inv_add_to_list t o m : inv A t m -> inv A t (add_to_list o m).
   Proof. unfold add_to_list. intros; brk; fl. Qed.
-  Lemma inv_dec_rc_m t o m : inv K t m -> inv K t (dec_rc_m o m).
+  Lemma inv_dec_rc_m t o m : inv A t m -> inv A t (dec_rc_m o m).
   Proof. unfold dec_rc_m. intros; brk; fl. Qed.
   Hint Resolve inv_remove_from_list inv_add_to_list inv_dec_rc_m : fl.
-  Lemma inv_dealloc t o m : inv K t m -> inv K t (dealloc K o m).
+  Lemma inv_dealloc t o m : inv A t m -> inv A t (dealloc K o m).
   Proof. unfold dealloc. intros; brk; fl. Qed.
-  Lemma inv_sfree t o m : inv K t m -> inv K t (sfree o m).
+  Lemma inv_sfree t o m : inv A t m -> inv A t (sfree o m).
   Proof. unfold sfree. intros; brk; fl. Qed.
-  Lemma inv_uside t o f m : inv K t m -> inv K t (uside o f m).
+  Lemma inv_uside t o f m : inv A t m -> inv A t (uside o f m).
   Proof. unfold uside. fl. Qed.
   Hint Resolve inv_dealloc inv_sfree inv_uside : fl.
-  Lemma inv_drop_metadata t o m : inv K t m -> inv K t (drop_metadata K o m).
+  Lemma inv_drop_metadata t o m : inv A t m -> inv A t (drop_metadata K o m).
   Proof. unfold drop_metadata. intros; brk; fl. Qed.
-  Lemma inv_init_side t o m : inv K t m -> inv K t (init_side o m).
+  Lemma inv_init_side t o m : inv A t m -> inv A t (init_side o m).
   Proof. unfold init_side. intros; brk; fl. Qed.
   Hint Resolve inv_drop_metadata inv_init_side : fl.
-  Lemma inv_weak_strong_count t w m : inv K t m -> inv K t (weak_strong_count w m).1.
+  Lemma inv_weak_strong_count t w m : inv A t m -> inv A t (weak_strong_count w m).1.
   Proof. unfold weak_strong_count. intros; brk; cbn [fst]; fl. Qed.
-  Lemma inv_weak_weak_count t w m : inv K t m -> inv K t (weak_weak_count w m).1.
+  Lemma inv_weak_weak_count t w m : inv A t m -> inv A t (weak_weak_count w m).1.
   Proof. unfold weak_weak_count. intros; brk; cbn [fst]; fl. Qed.
-  Lemma inv_weak_clone t w m m' : inv K t m -> weak_clone w m = Some m' -> inv K t m'.
+  Lemma inv_weak_clone t w m m' : inv A t m -> weak_clone w m = Some m' -> inv A t m'.
   Proof. unfold weak_clone. intros H E; revert E; brk; intros [= <-]; fl. Qed.
-  Lemma inv_weak_drop t w m : inv K t m -> inv K t (weak_drop w m).
+  Lemma inv_weak_drop t w m : inv A t m -> inv A t (weak_drop w m).
   Proof. unfold weak_drop. intros; brk; fl. Qed.
   Hint Resolve inv_weak_strong_count inv_weak_weak_count inv_weak_drop : fl.
-  Lemma inv_weak_drop_opt t w m : inv K t m -> inv K t (weak_drop_opt w m).
+  Lemma inv_weak_drop_opt t w m : inv A t m -> inv A t (weak_drop_opt w m).
   Proof. unfold weak_drop_opt. intros; brk; fl. Qed.
   Hint Resolve inv_weak_drop_opt : fl.
 
   (** *** locations *)
-  Lemma inv_node_via_slot t i m : inv K t m -> inv K t (node_via_slot i m).1.
+  Lemma inv_node_via_slot t i m : inv A t m -> inv A t (node_via_slot i m).1.
   Proof. unfold node_via_slot. intros; brk; cbn [fst]; fl. Qed.
   Hint Resolve inv_node_via_slot : fl.
-  Lemma inv_resolve t self l m : inv K t m -> inv K t (resolve self l m).1.
+  Lemma inv_resolve t self l m : inv A t m -> inv A t (resolve self l m).1.
   Proof.
     unfold resolve. intros H. destruct l as [i|j|i j]; cbn [fst]; auto.
     - brk; cbn [fst]; auto.
     - pose proof (inv_node_via_slot t i m H) as H'.
       destruct (node_via_slot i m) as [m1 n]. cbn [fst] in H'. brk; cbn [fst]; auto.
   Qed.
-  Lemma inv_wresolve t self l m : inv K t m -> inv K t (wresolve self l m).1.
+  Lemma inv_wresolve t self l m : inv A t m -> inv A t (wresolve self l m).1.
   Proof.
     unfold wresolve. intros H. destruct l as [i|j|i j|]; cbn [fst]; auto.
     - brk; cbn [fst]; auto.
     - pose proof (inv_node_via_slot t i m H) as H'.
       destruct (node_via_slot i m) as [m1 n]. cbn [fst] in H'. brk; cbn [fst]; auto.
   Qed.
-  Lemma inv_nresolve t self n m : inv K t m -> inv K t (nresolve self n m).1.
+  Lemma inv_nresolve t self n m : inv A t m -> inv A t (nresolve self n m).1.
   Proof. unfold nresolve. intros; brk; cbn [fst]; fl. Qed.
-  Lemma inv_write_loc t r v m : inv K t m -> inv K t (write_loc r v m).
+  Lemma inv_write_loc t r v m : inv A t m -> inv A t (write_loc r v m).
   Proof. unfold write_loc. intros; brk; fl. Qed.
-  Lemma inv_write_wloc t r v m : inv K t m -> inv K t (write_wloc r v m).
+  Lemma inv_write_wloc t r v m : inv A t m -> inv A t (write_wloc r v m).
   Proof. unfold write_wloc. intros; brk; fl. Qed.
   Hint Resolve inv_resolve inv_wresolve inv_nresolve inv_write_loc inv_write_wloc : fl.
 
   (** *** allocation, fuses, trigger policy, cleaner maps *)
-  Lemma inv_new_node t c m : inv K t m -> inv K t (new_node P c m).1.
+  Lemma inv_new_node t c m : inv A t m -> inv A t (new_node P c m).1.
   Proof. unfold new_node. intros; cbn [fst]; fl. Qed.
-  Lemma inv_new_map t m : inv K t m -> inv K t (new_map m).1.
+  Lemma inv_new_map t m : inv A t m -> inv A t (new_map m).1.
   Proof. unfold new_map. intros; cbn [fst]; fl. Qed.
-  Lemma inv_box_alloc t o m : inv K t m -> inv K t (box_alloc K o m).
+  Lemma inv_box_alloc t o m : inv A t m -> inv A t (box_alloc K o m).
   Proof. unfold box_alloc. intros; brk; fl. Qed.
-  Lemma inv_set_fuse t k n m : inv K t m -> inv K t (set_fuse k n m).
+  Lemma inv_set_fuse t k n m : inv A t m -> inv A t (set_fuse k n m).
   Proof. unfold set_fuse. intros; brk; fl. Qed.
   Hint Resolve inv_new_node inv_new_map inv_box_alloc inv_set_fuse : fl.
-  Lemma inv_tick t k m : inv K t m -> inv K t (tick k m).1.
+  Lemma inv_tick t k m : inv A t m -> inv A t (tick k m).1.
   Proof. unfold tick. intros; brk; cbn [fst]; fl. Qed.
-  Lemma inv_adjust t m : inv K t m -> inv K t (adjust K m).
+  Lemma inv_adjust t m : inv A t m -> inv A t (adjust K m).
   Proof. unfold adjust. intros; brk; fl. Qed.
   Hint Resolve inv_tick inv_adjust : fl.
-  Lemma inv_adjust_trigger_point t m : inv K t m -> inv K t (adjust_trigger_point K m).
+  Lemma inv_adjust_trigger_point t m : inv A t m -> inv A t (adjust_trigger_point K m).
   Proof. unfold adjust_trigger_point. intros; brk; fl. Qed.
-  Lemma inv_map_insert t mo a s m : inv K t m -> inv K t (map_insert mo a s m).1.
+  Lemma inv_map_insert t mo a s m : inv A t m -> inv A t (map_insert mo a s m).1.
   Proof. unfold map_insert. intros; brk; cbn [fst]; fl. Qed.
   Hint Resolve inv_adjust_trigger_point inv_map_insert : fl.
 
-  Lemma inv_ok t m r : inv K t m -> inv K t (ok m r).1.
+  Lemma inv_ok t m r : inv A t m -> inv A t (ok m r).1.
   Proof. unfold ok. intros; cbn [fst]; fl. Qed.
   Hint Resolve inv_ok : fl.
 
   (** *** folds *)
-  Lemma inv_fold {A} (f : machine -> A -> machine) t :
-    (forall m a, inv K t m -> inv K t (f m a)) ->
-    forall l m, inv K t m -> inv K t (fold_left f l m).
+  Lemma inv_fold {B} (f : machine -> B -> machine) t :
+    (forall m a, inv A t m -> inv A t (f m a)) ->
+    forall l m, inv A t m -> inv A t (fold_left f l m).
   Proof. intros Hf l. induction l as [|a l IH]; cbn; intros m H; auto. Qed.
-  Lemma inv_unmark_all t l m : inv K t m -> inv K t (unmark_all l m).
+  Lemma inv_unmark_all t l m : inv A t m -> inv A t (unmark_all l m).
   Proof. unfold unmark_all. apply inv_fold. intros; fl. Qed.
-  Lemma inv_reset_buffered t m : inv K t m -> inv K t (reset_buffered m).
+  Lemma inv_reset_buffered t m : inv A t m -> inv A t (reset_buffered m).
   Proof. unfold reset_buffered. apply inv_fold. intros; fl. Qed.
   Hint Resolve inv_unmark_all inv_reset_buffered : fl.
 
   (** *** unwinding *)
-  Lemma inv_unwinding c f d p (k : machine -> machine * outcome) m :
-    (forall m1, inv K (c, f, d, true) m1 -> inv K (c, f, d, true) (k m1).1) ->
-    inv K (c, f, d, p) m -> inv K (c, f, d, p) (unwinding k m).1.
+  Lemma res_unwinding c f d p (k : machine -> machine * outcome) m :
+    (forall m1, inv A (c, f, d, true) m1 -> res A (c, f, d, true) (k m1)) ->
+    inv A (c, f, d, p) m -> res A (c, f, d, p) (unwinding k m).
   Proof.
     intros Hk H. unfold unwinding.
-    pose proof (Hk _ (inv_set_p K c f d p true m H)) as H1.
-    destruct (k (m <| panicking := true |>)) as [m1 r1]. cbn [fst] in *.
-    rewrite (inv_p _ _ _ _ _ _ H). apply inv_set_p with (p := true). exact H1.
+    pose proof (Hk _ (inv_set_p A c f d p true m H)) as H1.
+    destruct (k (m <| panicking := true |>)) as [m1 r1]. destruct H1 as [Hl Hc]. cbn [fst snd] in *.
+    split; [exact Hl|]. cbn [fst snd].
+    destruct Hc as [->|Hc]; [left; reflexivity|]. right.
+    rewrite (inv_p _ _ _ _ _ _ H). unfold ctl in *. cbn. congruence.
   Qed.
 
   (** *** the tracing phases: run with (collecting, not finalizing, not dropping); they log
       [ECb KTrace] with exactly these flags, and [EBad] events *)
   Section Tracing.
-    Context (p : bool).
-    Let tt := (true, false, false, p).
+    Context (tt : bool * bool * bool * bool).
+    Context (Htr : forall o m, inv A tt m -> lp_ev A (ECb KTrace o (cur_flags K m))).
 
-    Lemma inv_traced_children t m o : inv K t m -> inv K t (traced_children P m o).1.
+    Lemma inv_traced_children t m o : inv A t m -> inv A t (traced_children P m o).1.
     Proof. unfold traced_children. intros; brk; cbn [fst]; fl. Qed.
     Hint Resolve inv_traced_children : fl.
 
-    Lemma ev_ok_trace m o : inv K tt m -> ev_ok K (ECb KTrace o (cur_flags K m)).
-    Proof.
-      intros H. unfold cur_flags.
-      rewrite (inv_c _ _ _ _ _ _ H), (inv_f _ _ _ _ _ _ H), (inv_d _ _ _ _ _ _ H).
-      cbn. destruct (k_fin K); cbn; auto.
-    Qed.
-
-    Lemma inv_trace_event o m : inv K tt m -> inv K tt (trace_event K o m).1.
+    Lemma inv_trace_event o m : inv A tt m -> inv A tt (trace_event K o m).1.
     Proof.
       unfold trace_event. intros H. destruct (is_map m o); cbn [fst]; auto.
-      apply inv_tick, inv_emit; auto using ev_ok_trace.
+      apply inv_tick, inv_emit; auto.
     Qed.
 
-    Lemma inv_visit_counting t s c : inv K t (t_m s) -> inv K t (t_m (visit_counting s c)).
+    Lemma inv_visit_counting t s c : inv A t (t_m s) -> inv A t (t_m (visit_counting s c)).
     Proof. unfold visit_counting. intros; brk; cbn [t_m]; fl. Qed.
-    Lemma inv_visit_root t s c : inv K t (t_m s) -> inv K t (t_m (visit_root s c)).
+    Lemma inv_visit_root t s c : inv A t (t_m s) -> inv A t (t_m (visit_root s c)).
     Proof. unfold visit_root. intros; brk; cbn [t_m]; fl. Qed.
 
     Lemma inv_fold_visit_counting t l s :
-      inv K t (t_m s) -> inv K t (t_m (fold_left visit_counting l s)).
+      inv A t (t_m s) -> inv A t (t_m (fold_left visit_counting l s)).
     Proof. revert s. induction l as [|a l IH]; cbn; intros s H; auto using inv_visit_counting. Qed.
     Lemma inv_fold_visit_root t l s :
-      inv K t (t_m s) -> inv K t (t_m (fold_left visit_root l s)).
+      inv A t (t_m s) -> inv A t (t_m (fold_left visit_root l s)).
     Proof. revert s. induction l as [|a l IH]; cbn; intros s H; auto using inv_visit_root. Qed.
 
     Lemma inv_process_counting s o :
-      inv K tt (t_m s) -> inv K tt (t_m (process_counting K P s o).1).
+      inv A tt (t_m s) -> inv A tt (t_m (process_counting K P s o).1).
     Proof.
       intros H. unfold process_counting.
       pose proof (inv_trace_event o _ (inv_uhdr tt o (set_mark IQ) _ H)) as H1.
@@ -298,7 +324,7 @@ Section Helpers.
     Qed.
 
     Lemma inv_process_root s o :
-      inv K tt (t_m s) -> inv K tt (t_m (process_root K P s o).1).
+      inv A tt (t_m s) -> inv A tt (t_m (process_root K P s o).1).
     Proof.
       intros H. unfold process_root.
       pose proof (inv_trace_event o _ H) as H1.
@@ -311,44 +337,44 @@ Section Helpers.
     Qed.
 
     Lemma inv_counting n : forall s r,
-      inv K tt (t_m s) -> counting K P n s = Some r -> inv K tt (t_m r.1).
+      inv A tt (t_m s) -> counting K P n s = Some r -> inv A tt (t_m r.1).
     Proof.
       induction n as [|n IH]; intros s r H E; cbn in E; [discriminate|].
       destruct (pc (t_m s)) as [|o rest] eqn:Epc.
       - destruct (t_q s) as [|o q'] eqn:Eq.
         + injection E as <-. exact H.
         + match type of E with context [process_counting K P ?s0 o] =>
-            assert (H1 : inv K tt (t_m s0)) by (cbn [t_m]; fl);
+            assert (H1 : inv A tt (t_m s0)) by (cbn [t_m]; fl);
             pose proof (inv_process_counting s0 o H1) as H2;
             destruct (process_counting K P s0 o) as [s' boom] end.
           cbn [fst] in H2. destruct boom; [injection E as <-; exact H2 | eauto].
       - match type of E with context [process_counting K P ?s0 o] =>
-          assert (H1 : inv K tt (t_m s0)) by (cbn [t_m]; fl);
+          assert (H1 : inv A tt (t_m s0)) by (cbn [t_m]; fl);
           pose proof (inv_process_counting s0 o H1) as H2;
           destruct (process_counting K P s0 o) as [s' boom] end.
         cbn [fst] in H2. destruct boom; [injection E as <-; exact H2 | eauto].
     Qed.
 
     Lemma inv_roots n : forall s r,
-      inv K tt (t_m s) -> roots K P n s = Some r -> inv K tt (t_m r.1).
+      inv A tt (t_m s) -> roots K P n s = Some r -> inv A tt (t_m r.1).
     Proof.
       induction n as [|n IH]; intros s r H E; cbn in E; [discriminate|].
       destruct (t_root s) as [|o rest] eqn:Er.
       - destruct (t_q s) as [|o q'] eqn:Eq.
         + injection E as <-. exact H.
         + match type of E with context [process_root K P ?s0 o] =>
-            assert (H1 : inv K tt (t_m s0)) by (cbn [t_m]; fl);
+            assert (H1 : inv A tt (t_m s0)) by (cbn [t_m]; fl);
             pose proof (inv_process_root s0 o H1) as H2;
             destruct (process_root K P s0 o) as [s' boom] end.
           cbn [fst] in H2. destruct boom; [injection E as <-; exact H2 | eauto].
       - match type of E with context [process_root K P ?s0 o] =>
-          assert (H1 : inv K tt (t_m s0)) by (cbn [t_m]; fl);
+          assert (H1 : inv A tt (t_m s0)) by (cbn [t_m]; fl);
           pose proof (inv_process_root s0 o H1) as H2;
           destruct (process_root K P s0 o) as [s' boom] end.
         cbn [fst] in H2. destruct boom; [injection E as <-; exact H2 | eauto].
     Qed.
 
-    Lemma inv_trace_pass m : inv K tt m -> inv K tt (trace_pass K P m).1.
+    Lemma inv_trace_pass m : inv A tt m -> inv A tt (trace_pass K P m).1.
     Proof.
       intros H. unfold trace_pass.
       destruct (counting K P (pass_fuel m) (TState m [] [] [])) as [[s b]|] eqn:E1; [|exact H].
@@ -360,6 +386,14 @@ Section Helpers.
     Qed.
   End Tracing.
 End Helpers.
+
+Lemma ev_ok_trace K p m o :
+  inv (flagsA K) (true, false, false, p) m -> ev_ok K (ECb KTrace o (cur_flags K m)).
+Proof.
+  intros H. unfold cur_flags.
+  rewrite (inv_c _ _ _ _ _ _ H), (inv_f _ _ _ _ _ _ H), (inv_d _ _ _ _ _ _ H).
+  cbn. destruct (k_fin K); cbn; auto.
+Qed.
 
 #[export] Hint Resolve inv_upd inv_uhdr inv_dec_size inv_remove_from_list inv_add_to_list
   inv_dec_rc_m inv_dealloc inv_sfree inv_uside inv_drop_metadata inv_init_side
